@@ -681,3 +681,74 @@ Proof.
     + rewrite hfc_nan. eexists; reflexivity.
     + rewrite hfc_finite. eexists; reflexivity.
 Qed.
+
+(* ================================================================== statements exported by props/C15.v *)
+Lemma count_numeral : forall n, exists out,
+  human_count n = Ok out /\ strip_commas out = dec n
+  /\ Forall is_digit (dec n) /\ dval (dec n) = n
+  /\ (0 < n -> exists c r, dec n = c :: r /\ c <> CH_0)
+  /\ (0 < n -> 10 ^ (len (dec n) - 1) <= n < 10 ^ len (dec n)).
+Proof.
+  intros n. exists (group (dec n)). split; [apply human_count_ok|].
+  split; [apply strip_group, digit_not_comma, dec_digits|].
+  split; [apply dec_digits|]. split; [apply dval_dec|]. split; [apply dec_head|apply dec_length].
+Qed.
+
+Lemma count_commas : forall n, exists out,
+  human_count n = Ok out
+  /\ List.length out = (List.length (dec n) + (List.length (dec n) - 1) / 3)%nat
+  /\ forall j, (j < List.length out)%nat ->
+       (nth j out 0 =? CH_COMMA) = (((List.length out - j) mod 4 =? 0)%nat).
+Proof.
+  intros n. exists (group (dec n)). split; [apply human_count_ok|].
+  split; [apply group_length|apply group_commas, digit_not_comma, dec_digits].
+Qed.
+
+Lemma hd_select : forall d,
+  hd_loop d 0 UNITS 0 = Ok (hd_idx d)
+  /\ (hd_idx d <= 5)%nat
+  /\ (forall j, (j < hd_idx d)%nat -> qualifies d j = false)
+  /\ ((hd_idx d < 5)%nat -> qualifies d (hd_idx d) = true)
+  /\ (forall d', d <= d' -> (hd_idx d' <= hd_idx d)%nat).
+Proof.
+  intros d. split; [apply hd_loop_spec|]. destruct (hd_idx_rule d) as (A & B & C).
+  repeat split; try assumption. intros d'. apply hd_idx_antitone.
+Qed.
+
+Lemma prefix_loop : forall a kilo,
+  exists k : nat,
+    np_loop 9 a kilo 0 = (div_iter k a kilo, N.of_nat k)
+    /\ (k <= 8)%nat
+    /\ (forall j, (j < k)%nat -> BinarySingleNaN.Bleb kilo (div_iter j a kilo) = true)
+    /\ (k = 8%nat \/ BinarySingleNaN.Bleb kilo (div_iter k a kilo) = false).
+Proof.
+  intros a kilo. destruct (np_loop_spec 9 a kilo 0) as (k & H1 & H2 & H3 & H4); [lia|cbn; lia|].
+  exists k. rewrite N.add_0_l in *. split; [exact H1|]. split; [lia|]. split; [exact H3|].
+  destruct H4 as [H4|H4]; [left; lia|right; exact H4].
+Qed.
+
+Lemma fixed_digits_full : forall p q,
+  fixed_digits p q = dec (q / 10 ^ p) ++
+    (if p =? 0 then [] else CH_DOT :: lastdigs (N.to_nat p) (q mod 10 ^ p))
+  /\ List.length (lastdigs (N.to_nat p) (q mod 10 ^ p)) = N.to_nat p
+  /\ dval (lastdigs (N.to_nat p) (q mod 10 ^ p)) = q mod 10 ^ p.
+Proof.
+  intros p q. split; [apply fixed_digits_spec|]. split; [apply lastdigs_length|].
+  apply lastdigs_val. rewrite N2Nat.id. apply N.mod_lt. apply N.pow_nonzero. discriminate.
+Qed.
+
+Lemma float_specials : forall precision,
+  (forall s, human_float_count_sf precision (S754_zero s) = Ok (sign_str s ++ [CH_0]))
+  /\ (forall s, human_float_count_sf precision (S754_infinity s) = Ok (sign_str s ++ str "inf"))
+  /\ human_float_count_sf precision S754_nan = Ok (str "NaN").
+Proof. intros p. split; [apply hfc_zero|]. split; [apply hfc_inf|apply hfc_nan]. Qed.
+
+Lemma group_law : forall cs, Forall is_digit cs ->
+  strip_commas (group cs) = cs
+  /\ List.length (group cs) = (List.length cs + (List.length cs - 1) / 3)%nat
+  /\ forall j, (j < List.length (group cs))%nat ->
+       (nth j (group cs) 0 =? CH_COMMA) = (((List.length (group cs) - j) mod 4 =? 0)%nat).
+Proof.
+  intros cs H. pose proof (digit_not_comma cs H) as H'.
+  split; [apply strip_group; exact H'|]. split; [apply group_length|apply group_commas; exact H'].
+Qed.
